@@ -12,3 +12,11 @@ Definition check_struct_src (c : role * enzyme * string * string * string) : boo
   | Ok t => sch_eqb_list t (sch_of_string text)
   | Err _ => false
   end.
+
+(* DNARegex._transcribe as regenerated, against the text the implementation compiles *)
+Definition check_transcribe_src (c : string * string) : bool :=
+  let '(s, text) := c in
+  match DNARegex_transcribe tt (sch_of_string s) with
+  | Ok t => sch_eqb_list t (sch_of_string text)
+  | Err _ => false
+  end.
